@@ -129,8 +129,16 @@ class _Tok:
 ROLES = (":class:`Foo`", ":func:`mod.bar`", ":data:`DEFAULT_RETRY`", ":emphasis:`really`", ":py:meth:`Baz.run`", ":ref:`a label <lbl>`")
 
 
+# characters str.splitlines() breaks at although they are not "\n": a docstring line is what lies between two "\n"
+LINE_INTERNAL = ("\x0b", "\x0c", "\x1c", "\x1d", "\x1e", "\x85", "\u2028", "\u2029", "\r")
+
+
 def _line(src: Src, tok: _Tok, colon_ok: bool) -> str:
     words = " ".join(src.pick(WORDS) for _ in range(1 + src.below(3)))
+    if src.below(8) == 0:
+        # one of those characters inside the line (never at an end, where white-space stripping would take it)
+        ch = src.pick(LINE_INTERNAL)
+        words = words.replace(" ", ch, 1) if " " in words else f"{words}{ch}x"
     tail = src.pick(COLON_TAILS) if (colon_ok and src.below(6) == 0) else src.pick(TAILS)
     # a line may begin with an inline role (ordinary in Sphinx/RST prose, harmless markup in the other styles)
     lead = (src.pick(ROLES) + " ") if (colon_ok and src.below(5) == 0) else ""
@@ -306,6 +314,15 @@ def decode(data: bytes, known: frozenset = frozenset()) -> dict:
                     if it["name"] and not it["ann"] and it.get("v", 0) & 4:
                         it["v"] &= ~4
                         steered.add("numpy-returns-bare-name")
+    if style == "google" and "google-single-item-splitlines" in known:
+        for sec in sections:
+            if sec["kind"] in ("returns", "yields", "receives"):
+                multi = opts["receives_multiple_items" if sec["kind"] == "receives" else "returns_multiple_items"]
+                if not multi:
+                    for it in sec["items"]:
+                        if any(ch in ln for ln in it["desc"] for ch in LINE_INTERNAL):
+                            it["desc"] = ["".join(" " if ch in LINE_INTERNAL else ch for ch in ln) for ln in it["desc"]]
+                            steered.add("google-single-item-splitlines")
     if steered:
         case["steered"] = sorted(steered)
     return case
